@@ -74,7 +74,8 @@ class World:
     def __init__(self, root: Path, fine=False):
         self.root = str(root)
         self.fine = fine
-        self.iplocks = {}            # path -> owning simulated pid
+        self.iplocks = {}            # (device, inode) of a lock file -> owning simulated pid
+        self.ipfds = {}              # (pid, path) -> [(descriptor, key)]: lock files a process has open
         self.next_pid = 1000
         self.events = []             # observation log
         self.procs = {}              # vpid -> VProcess
@@ -219,9 +220,7 @@ class Hub:
             return
         victim = next(p for p in W.simprocs if p.pid == pid)
         victim.alive = False
-        for path, owner in list(W.iplocks.items()):
-            if owner == victim.pid:
-                del W.iplocks[path]
+        PosixLockTable.drop_all(victim.pid)
         W.events.append(("KILL", victim.pid, step))
         self.current = None
         if restart:
@@ -432,20 +431,68 @@ def v_run_coroutine_threadsafe(coro, loop):
 
 # ---------------------------------------------------------------------------------------------- POSIX record locks
 class PosixLockTable:
-    """path -> owning pid.  Same process re-acquires freely; release only drops the caller's own lock; death drops all."""
+    """(device, inode) of the lock file -> owning pid.  A lock belongs to the *file* a process has opened, not to its path: a process that
+    waits for a lock keeps the file open, so when the path is unlinked and created again a newcomer locks another file (fasteners opens
+    the file once, then polls lockf on that descriptor).  Same process re-acquires freely; release only drops the caller's own lock;
+    death drops all.  W.ipfds: (pid, path) -> [(descriptor kept open, key), ...]"""
 
     @staticmethod
-    def try_acquire(path, pid):
-        o = W.iplocks.get(path)
+    def open(path, pid):
+        Path(path).parent.mkdir(parents=True, exist_ok=True)
+        fd = os.open(path, os.O_RDWR | os.O_CREAT, 0o666)
+        st = os.fstat(fd)
+        key = (st.st_dev, st.st_ino)
+        W.ipfds.setdefault((pid, path), []).append((fd, key))
+        return key
+
+    @staticmethod
+    def try_acquire(key, pid):
+        o = W.iplocks.get(key)
         if o is None or o == pid:
-            W.iplocks[path] = pid
+            W.iplocks[key] = pid
             return True
         return False
 
     @staticmethod
-    def release(path, pid):
-        if W.iplocks.get(path) == pid:
-            del W.iplocks[path]
+    def close(path, pid, unlock=True):
+        """closes the descriptor opened last for this path by this process; unlock: gives up the process's lock on that file"""
+        lst = W.ipfds.get((pid, path))
+        if not lst:
+            return
+        fd, key = lst.pop()
+        if not lst:
+            del W.ipfds[(pid, path)]
+        try:
+            os.close(fd)
+        except OSError:
+            pass
+        if unlock and W.iplocks.get(key) == pid:
+            del W.iplocks[key]
+
+    @staticmethod
+    def drop_all(pid):
+        """process death"""
+        for key, owner in list(W.iplocks.items()):
+            if owner == pid:
+                del W.iplocks[key]
+        for (p, path), lst in list(W.ipfds.items()):
+            if p == pid:
+                for fd, _ in lst:
+                    try:
+                        os.close(fd)
+                    except OSError:
+                        pass
+                del W.ipfds[(p, path)]
+
+    @staticmethod
+    def close_all(world):
+        for lst in world.ipfds.values():
+            for fd, _ in lst:
+                try:
+                    os.close(fd)
+                except OSError:
+                    pass
+        world.ipfds.clear()
 
 
 def fine_point(path):
@@ -465,14 +512,13 @@ def ip_acquire(path, blocking=True):
     if _dead() or current_proc() is None:
         raise greenlet.GreenletExit()
     pid = current_proc().pid
-    if not PosixLockTable.try_acquire(path, pid):
+    key = PosixLockTable.open(path, pid)
+    if not PosixLockTable.try_acquire(key, pid):
         if not blocking:
+            PosixLockTable.close(path, pid, unlock=False)
             return False
-        HUB.block_on(lambda: W.iplocks.get(path) in (None, pid))
-        W.iplocks[path] = pid
-    Path(path).parent.mkdir(parents=True, exist_ok=True)
-    if not os.path.exists(path):
-        open(path, "a").close()
+        HUB.block_on(lambda: W.iplocks.get(key) in (None, pid))
+        W.iplocks[key] = pid
     if fine_point(path):
         W.events.append(("fs", pid, "lock", os.path.basename(path)))
         HUB.yield_point()
@@ -486,7 +532,7 @@ def ip_release(path):
     p = current_proc()
     if p is None or not p.alive:
         return
-    PosixLockTable.release(path, p.pid)
+    PosixLockTable.close(path, p.pid)
     if fine_point(path):
         W.events.append(("fs", p.pid, "unlock", os.path.basename(path)))
         HUB.yield_point()
@@ -599,8 +645,15 @@ def posix_close(path):
         return
     p = str(path)
     proc = current_proc()
-    if proc is not None and W.iplocks.get(p) == proc.pid:
-        del W.iplocks[p]
+    if proc is None:
+        return
+    try:
+        st = os.stat(p)
+    except OSError:
+        return
+    key = (st.st_dev, st.st_ino)
+    if W.iplocks.get(key) == proc.pid:
+        del W.iplocks[key]
         W.events.append(("fs", proc.pid, "lock-dropped-by-close", os.path.basename(p)))
 
 
@@ -854,6 +907,7 @@ def run_world(mains, schedule=None, policy="FIFO", fine=False, kill=None, max_st
             hub.current = None
             hub.on_step = None
             hub.kill = None
+            PosixLockTable.close_all(world)
             world.jobs.clear()
             world.xps.clear()
             world.tokens.clear()
